@@ -434,7 +434,6 @@ func lexicalGuards(pm map[ast.Node]ast.Node, n ast.Node, stop ast.Node) []Atom {
 	return out
 }
 
-
 // loopHead returns the head block (condition re-evaluation point) of a range
 // or for statement.
 func (f *Flow) loopHead(loop ast.Stmt) *cfg.Block {
